@@ -575,6 +575,10 @@ fn _close_upvalues<T>(vm: &mut Vm<T>, top: *const Value) -> ExecutionResult {
     Ok(())
 }
 
+pub fn close_upvalues_from<T>(vm: &mut Vm<T>, start: *const Value) -> ExecutionResult {
+    _close_upvalues(vm, start)
+}
+
 pub fn close_upvalues<T>(vm: &mut Vm<T>) -> ExecutionResult {
     let top = vm.runtime_data.value_stack.top_location();
     _close_upvalues(vm, top)?;
